@@ -1,6 +1,6 @@
 #!/bin/bash
 # Every property-preserving change under benign/<id>/ must leave its property's quick check silent (exit 0).
-cd /verif
+cd "$(dirname "$(readlink -f "$0")")/.."
 for d in benign/*/; do
   id=$(basename $d); pid=$(python3 -c "import json;print(json.load(open('$d/meta.json'))['property'])")
   out=$(tools/try_benign.sh $d $pid 2>&1 | head -1); echo "$id $pid $out"
